@@ -194,6 +194,91 @@ fn steer_sources<K: Kit>(j: &J<K>, tree: &[TNode], q: &[f64], x: &[f64], step: f
     (nearest, ok)
 }
 
+/// Judge one RRT-Connect transition under the assumption that the start tree (or the goal tree)
+/// was the one grown first. Returns (violations, counters).
+fn judge_connect_roles<K: Kit>(
+    j: &J<K>,
+    d: &Drv<K>,
+    start_first: bool,
+    a0: &[TNode],
+    a1: &[TNode],
+    g0: &[TNode],
+    g1: &[TNode],
+    ga: i64,
+    gg: i64,
+    q: &[f64],
+    step: f64,
+    acc_q: usize,
+    rej_q: usize,
+    res: &Res,
+) -> (Vec<(String, String)>, Vec<&'static str>) {
+    let mut v: Vec<(String, String)> = vec![];
+    let mut c: Vec<&'static str> = vec![];
+    c.push(if start_first { "connect_grow_start_first" } else { "connect_grow_goal_first" });
+    let (f0, f1, s0, s1, gf, gs) = if start_first { (a0, a1, g0, g1, ga, gg) } else { (g0, g1, a0, a1, gg, ga) };
+    if gf == 0 {
+        if gs != 0 {
+            v.push(("wrong-tree-grown-first".into(), format!("the {} tree was due (sizes {} / {}) but only the other one grew", if start_first { "start" } else { "goal" }, a0.len(), g0.len())));
+        } else if rej_q == 0 {
+            v.push(("nothing-added-although-all-queries-accepted".into(), format!("{acc_q} accepted queries, sample {:?}", q)));
+        }
+        c.push("transitions_rejected");
+        return (v, c);
+    }
+    c.push("transitions_extended");
+    let x = &f1[f0.len()];
+    let (_, ok) = steer_sources(j, f0, q, &x.s, step);
+    if ok.is_empty() {
+        v.push(("new-node-is-not-one-step-from-a-nearest-node".into(), format!("sample {:?}, new node {:?}", q, x.s)));
+    } else if !ok.contains(&x.parent.unwrap_or(usize::MAX)) {
+        v.push(("parent-is-not-a-nearest-node".into(), format!("parent {:?}, admissible {:?}", x.parent, ok)));
+    }
+    // direct hit: the start tree grew into the goal => the call must have returned, and the other
+    // tree must not have been touched
+    let direct = start_first && d.goal().map(|g| g.pure_satisfied(&j.kit.unflat(&x.s))).unwrap_or(false);
+    if direct {
+        c.push("connect_direct_goal_hits");
+        if gs != 0 {
+            v.push(("connect-after-direct-hit".into(), "goal tree grew although the start tree had reached the goal".into()));
+        }
+        if !res.is_path() {
+            v.push(("direct-hit-not-returned".into(), format!("result {}", res.short())));
+        }
+        return (v, c);
+    }
+    if gs == 1 {
+        c.push("connect_extensions");
+        let y = &s1[s0.len()];
+        let (_, ok2) = steer_sources(j, s0, &x.s, &y.s, step);
+        if ok2.is_empty() {
+            v.push(("connect-node-is-not-one-step-toward-new-node".into(), format!("target {:?}, connect node {:?}", x.s, y.s)));
+        } else if !ok2.contains(&y.parent.unwrap_or(usize::MAX)) {
+            v.push(("connect-parent-is-not-a-nearest-node".into(), format!("parent {:?}, admissible {:?}", y.parent, ok2)));
+        }
+        let reached = bits_eq(&y.s, &x.s);
+        if reached {
+            c.push("connect_solutions");
+            // the planner must report the connection when the target was within one step under an
+            // exact comparison taken in both argument orders; at a distance one ulp above the step
+            // it may legitimately have interpolated onto the target without noticing
+            let dmin = s0.iter().map(|n| j.d(&n.s, &x.s).max(j.d(&x.s, &n.s))).fold(f64::INFINITY, f64::min);
+            if !res.is_path() {
+                if dmin <= step {
+                    v.push(("connection-not-returned".into(), format!("trees met at {:?} (distance {dmin} <= step {step}) but result is {}", x.s, res.short())));
+                } else {
+                    c.push("connect_met_at_exact_step_boundary_unreported");
+                }
+            }
+        } else if res.is_path() {
+            v.push(("path-without-connection".into(), "a path was returned although the trees did not meet".into()));
+        }
+    } else if rej_q == 0 {
+        // the connect attempt was made and rejected: some query must have been rejected
+        v.push(("connect-not-attempted-or-dropped".into(), format!("other tree did not grow, yet no query was rejected ({acc_q} accepted)")));
+    }
+    (v, c)
+}
+
 fn step_queries(events: &[Rec]) -> (usize, usize) {
     let mut acc = 0;
     let mut rej = 0;
@@ -373,72 +458,29 @@ fn judge_trace<K: Kit>(prop: StepProp, ctx: &Ctx, b: &mut Batch, kit: &K, case: 
                 if a0[..] != a1[..a0.len()] || g0[..] != g1[..g0.len()] {
                     j.viol(StepProp::C16, "existing-nodes-mutated", "RRT-Connect changed existing nodes".into(), si);
                 }
-                let start_first = a0.len() <= g0.len();
-                b.count(if start_first { "connect_grow_start_first" } else { "connect_grow_goal_first" }, 1);
-                let (f0, f1, s0, s1, gf, gs) = if start_first { (a0, a1, g0, g1, ga, gg) } else { (g0, g1, a0, a1, gg, ga) };
-                if gf == 0 {
-                    if gs != 0 {
-                        j.viol(StepProp::C16, "wrong-tree-grown-first", format!("the {} tree was due (sizes {} / {}) but only the other one grew", if start_first { "start" } else { "goal" }, a0.len(), g0.len()), si);
-                    } else if rej_q == 0 {
-                        j.viol(StepProp::C16, "nothing-added-although-all-queries-accepted", format!("{acc_q} accepted queries, sample {:?}", q), si);
+                // which tree is due: the smaller one; on equal sizes the property does not say, so
+                // either assignment that explains the transition is accepted
+                let roles: Vec<bool> = if a0.len() < g0.len() { vec![true] } else if a0.len() > g0.len() { vec![false] } else { vec![true, false] };
+                let mut best: Option<(Vec<(String, String)>, Vec<&'static str>)> = None;
+                for start_first in roles {
+                    let (v, c) = judge_connect_roles(&j, d, start_first, a0, a1, g0, g1, ga, gg, q, step, acc_q, rej_q, &st.res);
+                    let better = match &best {
+                        None => true,
+                        Some((bv, _)) => v.len() < bv.len(),
+                    };
+                    if better {
+                        best = Some((v, c));
                     }
-                    b.count("transitions_rejected", 1);
-                    continue;
+                    if best.as_ref().map(|x| x.0.is_empty()).unwrap_or(false) {
+                        break;
+                    }
                 }
-                b.count("transitions_extended", 1);
-                let x = &f1[f0.len()];
-                let (_, ok) = steer_sources(&j, f0, q, &x.s, step);
-                if ok.is_empty() {
-                    j.viol(StepProp::C16, "new-node-is-not-one-step-from-a-nearest-node", format!("sample {:?}, new node {:?}", q, x.s), si);
-                } else if !ok.contains(&x.parent.unwrap_or(usize::MAX)) {
-                    j.viol(StepProp::C16, "parent-is-not-a-nearest-node", format!("parent {:?}, admissible {:?}", x.parent, ok), si);
-                }
-                // direct hit: the start tree grew into the goal => the call must have returned,
-                // and the other tree must not have been touched
-                let direct = start_first && d.goal().map(|g| g.pure_satisfied(&kit.unflat(&x.s))).unwrap_or(false);
-                if direct {
-                    b.count("connect_direct_goal_hits", 1);
-                    if gs != 0 {
-                        j.viol(StepProp::C16, "connect-after-direct-hit", "goal tree grew although the start tree had reached the goal".into(), si);
+                if let Some((v, c)) = best {
+                    for k in c {
+                        b.count(k, 1);
                     }
-                    if !st.res.is_path() {
-                        j.viol(StepProp::C16, "direct-hit-not-returned", format!("result {}", st.res.short()), si);
-                    }
-                    continue;
-                }
-                if gs == 1 {
-                    b.count("connect_extensions", 1);
-                    let y = &s1[s0.len()];
-                    let (_, ok2) = steer_sources(&j, s0, &x.s, &y.s, step);
-                    if ok2.is_empty() {
-                        j.viol(StepProp::C16, "connect-node-is-not-one-step-toward-new-node", format!("target {:?}, connect node {:?}", x.s, y.s), si);
-                    } else if !ok2.contains(&y.parent.unwrap_or(usize::MAX)) {
-                        j.viol(StepProp::C16, "connect-parent-is-not-a-nearest-node", format!("parent {:?}, admissible {:?}", y.parent, ok2), si);
-                    }
-                    let reached = bits_eq(&y.s, &x.s);
-                    if reached {
-                        b.count("connect_solutions", 1);
-                        // the planner must report the connection when the target was clearly within
-                        // one step; at a distance within rounding of the step it may legitimately
-                        // have interpolated onto the target without noticing
-                        // (exact comparison, taken in both argument orders so that only a distance that
-                        // is <= step either way counts as "within the step")
-                        let dmin = s0.iter().map(|n| j.d(&n.s, &x.s).max(j.d(&x.s, &n.s))).fold(f64::INFINITY, f64::min);
-                        if !st.res.is_path() {
-                            if dmin <= step {
-                                j.viol(StepProp::C16, "connection-not-returned", format!("trees met at {:?} (distance {dmin} <= step {step}) but result is {}", x.s, st.res.short()), si);
-                            } else {
-                                b.count("connect_met_at_exact_step_boundary_unreported", 1);
-                            }
-                        }
-                    } else if st.res.is_path() {
-                        j.viol(StepProp::C16, "path-without-connection", "a path was returned although the trees did not meet".into(), si);
-                    }
-                } else {
-                    // the connect attempt was made and rejected: some query after the first
-                    // tree's acceptance must have been rejected
-                    if rej_q == 0 {
-                        j.viol(StepProp::C16, "connect-not-attempted-or-dropped", format!("other tree did not grow, yet no query was rejected ({acc_q} accepted)"), si);
+                    for (sig, det) in v {
+                        j.viol(StepProp::C16, &sig, det, si);
                     }
                 }
             }
